@@ -3,7 +3,10 @@
 P: gen/mapdeps.py -> Gen/MapDeps.lean; Props/C05.lean (item codecs, index diffs, resolution, lookups).
 T: correspondence `dex <hex>`: androguard's DEX (in-process) vs the Lean model `parseDex` + lookup
    helpers on the same bytes, one canonical line (classes, members, code, strings, every lookup
-   helper); item-level streams `classdata`, `typelist`, `code`, `ids` on random/padded byte strings.
+   helper); item-level streams `classdata`, `typelist`, `code`, `ids` on random/padded byte strings;
+   `dexx <hex>`: the extended model `parseDexX` (static values of every value type, init values, annotations
+   directory, class annotations) on enriched files, files with patched class defs, files with missing
+   sections and the shipped DEX files.
 S: oracle = the generator's class model itself (harness/dexmodel.expected_line: what the independent
    writer harness/dexasm.py was asked to write), compared with what androguard reports.
 The model and the oracle describe the code WITH fixes/C05-lookup-helpers.diff applied.
@@ -17,6 +20,7 @@ import struct
 import zipfile
 
 from harness import dexmodel as M
+from harness import dexx as X
 from harness.fw import Check, Driver, REPO, VERIF, hexs
 
 CORPUS = os.path.join(VERIF, "corpus", "C05")
@@ -51,6 +55,8 @@ PINS = [("androguard/core/dex/__init__.py", "MapList.__init__"), ("androguard/co
         ("androguard/core/dex/__init__.py", "DEX.get_encoded_method_descriptor"), ("androguard/core/dex/__init__.py", "DEX.get_encoded_methods_class_method"),
         ("androguard/core/dex/__init__.py", "DEX.get_encoded_methods_class"), ("androguard/core/dex/__init__.py", "DEX.get_encoded_fields_class"),
         ("androguard/core/dex/__init__.py", "DEX.get_encoded_field_descriptor"), ("androguard/core/dex/__init__.py", "DEX.get_strings"),
+        # the extended model (Model/DexFileX.lean): encoded arrays, annotations, the rest of ClassDefItem.reload
+        ("androguard/core/dex/__init__.py", "EncodedArrayItem.__init__"), ("androguard/core/dex/__init__.py", "EncodedArray.__init__"), ("androguard/core/dex/__init__.py", "EncodedValue.__init__"), ("androguard/core/dex/__init__.py", "EncodedValue._getintvalue"), ("androguard/core/dex/__init__.py", "EncodedValue._getfloatvalue"), ("androguard/core/dex/__init__.py", "AnnotationItem.__init__"), ("androguard/core/dex/__init__.py", "EncodedAnnotation.__init__"), ("androguard/core/dex/__init__.py", "AnnotationElement.__init__"), ("androguard/core/dex/__init__.py", "AnnotationSetItem.__init__"), ("androguard/core/dex/__init__.py", "AnnotationOffItem.__init__"), ("androguard/core/dex/__init__.py", "AnnotationSetRefList.__init__"), ("androguard/core/dex/__init__.py", "AnnotationSetRefItem.__init__"), ("androguard/core/dex/__init__.py", "AnnotationsDirectoryItem.__init__"), ("androguard/core/dex/__init__.py", "FieldAnnotation.__init__"), ("androguard/core/dex/__init__.py", "MethodAnnotation.__init__"), ("androguard/core/dex/__init__.py", "ParameterAnnotation.__init__"), ("androguard/core/dex/__init__.py", "ClassManager.get_encoded_array_item"), ("androguard/core/dex/__init__.py", "ClassManager.get_annotations_directory_item"), ("androguard/core/dex/__init__.py", "ClassManager.get_annotation_set_item"), ("androguard/core/dex/__init__.py", "ClassManager.get_annotation_item"), ("androguard/core/dex/__init__.py", "ClassDataItem.set_static_fields"), ("androguard/core/dex/__init__.py", "ClassDefItem.get_annotations"), ("androguard/core/dex/__init__.py", "ClassDefItem._get_annotation_type_ids"), ("androguard/core/dex/__init__.py", "AnnotationsDirectoryItem.get_annotation_set_item"), ("androguard/core/dex/__init__.py", "AnnotationOffItem.get_annotation_item"), ("androguard/core/dex/__init__.py", "FieldIdItem.get_list"), ("androguard/core/dex/__init__.py", "MethodIdItem.get_list"), ("androguard/core/dex/__init__.py", "FieldIdItemInvalid.get_list"), ("androguard/core/dex/__init__.py", "MethodIdItemInvalid.get_list"), ("androguard/core/dex/__init__.py", "EncodedField.set_init_value"),
         ("androguard/core/dex/dex_types.py", "TypeMapItem.determine_load_order"),
         ("androguard/core/dex/dex_types.py", "TypeMapItem._get_dependencies")]
 
@@ -174,6 +180,72 @@ def real_line(data, extra=None, d=None):
         return "err struct.error"
     except Exception as e:  # noqa
         return "err " + exc_name(e)
+
+
+def real_line_x(data):
+    """the canonical line of the extended model (lean/AgVerif/Model/DexFileX.lean, driver request `dexx`):
+    the base line, then static values / init values / annotations directory / class annotations"""
+    try:
+        d = _dex().DEX(data)
+    except struct.error:
+        return "err struct.error"
+    except Exception as e:  # noqa
+        return "err " + exc_name(e)
+    base = real_line(data, d=d)
+    if not base.startswith("ok "):
+        return base
+    try:
+        return base + X.real_x(d)
+    except struct.error:
+        return "err struct.error"
+    except Exception as e:  # noqa
+        return "err " + exc_name(e)
+
+
+def patched_files(rng, n):
+    """(origin, bytes): enriched files whose class defs were patched: static_values_off / annotations_off moved to an
+    offset where no item starts or set to 0, class_data_off of one class redirected to another class's data item
+    (shared ClassDataItem object: set_static_fields of both classes write the same fields)"""
+    out = []
+    tries = 0
+    while len(out) < n and tries < 20 * n:
+        tries += 1
+        model = X.enrich(rng, M.gen_model(rng), long_values=True)
+        if not model["classes"]:
+            continue
+        data = bytearray(M.build(model)[0])
+        ncls, coff = struct.unpack_from("<II", data, 0x60)
+        k = rng.randrange(ncls)
+        base = coff + 32 * k
+        what = rng.choice(["static+1", "static0", "ann+4", "ann0", "share", "share", "static-swap"])
+        if what == "static+1":
+            v = struct.unpack_from("<I", data, base + 28)[0]
+            if not v:
+                continue
+            struct.pack_into("<I", data, base + 28, v + 1)
+        elif what == "static0":
+            struct.pack_into("<I", data, base + 28, 0)
+        elif what == "ann+4":
+            v = struct.unpack_from("<I", data, base + 20)[0]
+            if not v:
+                continue
+            struct.pack_into("<I", data, base + 20, v + 4)
+        elif what == "ann0":
+            struct.pack_into("<I", data, base + 20, 0)
+        elif what == "share":
+            if ncls < 2:
+                continue
+            j = rng.choice([x for x in range(ncls) if x != k])
+            v = struct.unpack_from("<I", data, coff + 32 * j + 24)[0]
+            struct.pack_into("<I", data, base + 24, v)
+        else:
+            if ncls < 2:
+                continue
+            j = rng.choice([x for x in range(ncls) if x != k])
+            v = struct.unpack_from("<I", data, coff + 32 * j + 28)[0]
+            struct.pack_into("<I", data, base + 28, v)
+        out.append(("patched:%s:%d" % (what, len(out)), M.A.fix_checksum(bytes(data)), model))
+    return out
 
 
 def _guard(fn):
@@ -400,6 +472,83 @@ def item_streams(ck, drv):
     return len(reqs)
 
 
+def x_streams(ck, drv, big):
+    """the extended model (static values, init values, annotations): real vs model (`dexx`), real vs oracle"""
+    rng = ck.rng
+    reqs, real, cases = [], [], []
+    n = 20000 if not ck.quick else (3000 if ck.escalated else 500)
+    dist = {"x_files": 0, "x_agree_with_oracle": 0, "x_classes_with_static_values": 0, "x_classes_with_annotations": 0,
+            "x_static_values": 0}
+    for i in range(n):
+        model = X.enrich(rng, M.gen_model(rng))
+        data, b = M.build(model)
+        rl = real_line_x(data)
+        exp = M.expected_line(model, b) + X.expected_x(model, b, data)
+        reqs.append("dexx " + hexs(data))
+        real.append(rl)
+        cases.append(("xrandom:%d" % i, model))
+        dist["x_files"] += 1
+        dist["x_agree_with_oracle"] += rl == exp
+        for c in model["classes"]:
+            dist["x_classes_with_static_values"] += c.get("xstatic") is not None or any(f[3] is not None for f in c["sfields"])
+            dist["x_static_values"] += len(c.get("xstatic") or ())
+            dist["x_classes_with_annotations"] += bool(c.get("xann") or c.get("annotate"))
+        if rl != exp:
+            e, o = first_diff(exp, rl)
+            ck.fail({"origin": "xrandom:%d" % i, "model": model, "extended": True},
+                    "static values / init values / annotations reported by androguard differ from what the file declares",
+                    None, e, o)
+    # class defs patched after writing (no oracle: the files are malformed on purpose)
+    for origin, data, model in patched_files(rng, 3000 if not ck.quick else (600 if ck.escalated else 120)):
+        reqs.append("dexx " + hexs(data))
+        real.append(real_line_x(data))
+        cases.append((origin, model))
+    dist["x_patched_files"] = sum(1 for c in cases if c[0].startswith("patched"))
+    dist["x_patched_errors"] = sum(1 for c, r in zip(cases, real) if c[0].startswith("patched") and r.startswith("err"))
+    ck.compare("dexx", ["dexx <%s>" % c[0] for c in cases], real, drv.ask(reqs))
+    for m in ck.corr_mismatch:
+        if m["stream"] == "dexx":
+            origin = m["request"].split("<", 1)[1][:-1]
+            mm = next((c[1] for c in cases if c[0] == origin), None)
+            m["case"] = {"origin": origin, "model": mm, "extended": True}
+            m["real"], m["model"] = first_diff(m["real"], m["model"])
+    # shipped files
+    sreqs, sreal, names = [], [], []
+    for name, data in shipped_dex():
+        if len(data) > (700000 if big else 40000):
+            continue
+        sreqs.append("dexx " + hexs(data))
+        sreal.append(real_line_x(data))
+        names.append(name)
+    ck.compare("dexx-shipped", ["dexx <%s>" % n_ for n_ in names], sreal, drv.ask(sreqs))
+    # sections missing from the map: KeyError / AttributeError paths of the eager lookups
+    from harness.dexasm import (DexBuilder, Field, Method, Code, Annotation, VALUE_STRING, VALUE_TYPE, VALUE_FIELD,
+                                VALUE_METHOD, VALUE_ENUM, VALUE_INT, VALUE_ARRAY)
+    dreqs, dreal, dnames = [], [], []
+    variants = {"string": [(VALUE_STRING, "hi")], "type": [(VALUE_TYPE, "LFoo;")], "field": [(VALUE_FIELD, ("LFoo;", "X", "I"))],
+                "enum": [(VALUE_ENUM, ("LFoo;", "X", "I"))], "method": [(VALUE_METHOD, ("LFoo;", "f", "I", ("I", "J")))],
+                "int": [(VALUE_INT, 7)], "nested": [(VALUE_ARRAY, [(VALUE_INT, 1), (VALUE_STRING, "hi")])]}
+    for vname, vals in variants.items():
+        for t in (0x0001, 0x0002, 0x0003, 0x0004, 0x0005, 0x0006, 0x1001, 0x2000, 0x2002, 0x2004, 0x2005, 0x2006, 0x1003, 0x1002):
+            bld = DexBuilder()
+            ann = {"class": [Annotation(1, "Ljava/lang/Deprecated;", [("value", vals[0])])],
+                   "parameters": {("f", "I", ("I", "J")): [[Annotation(0, "LAnn;", [])], None]}}
+            bld.add_class("LFoo;", interfaces=("Ljava/lang/Runnable;",), source_file="Foo.java",
+                          static_fields=[Field("X", "I", 0x9), Field("Y", "Ljava/lang/Object;", 0x9)],
+                          virtual_methods=[Method("f", "I", ("I", "J"), 0x1, Code(5, 4, 0, [("const/4", 0, 1), ("return", 0)]))],
+                          static_values=vals, annotations=ann)
+            data = bld.build(map_order=lambda es, t=t: [e for e in es if e[0] != t])
+            dreqs.append("dexx " + hexs(data))
+            dreal.append(real_line_x(data))
+            dnames.append("dexx <static %s, no map entry 0x%04x>" % (vname, t))
+    ck.compare("dexx-missing-section", dnames, dreal, drv.ask(dreqs))
+    dist["x_missing_section_files"] = len(dnames)
+    dist["x_missing_section_errors"] = sum(1 for r in dreal if r.startswith("err"))
+    dist["x_shipped_files"] = len(names)
+    ck.cover(evaluations=dist["x_files"], dist=dist)
+    return dist
+
+
 def load_corpus():
     out = []
     for p in sorted(glob.glob(os.path.join(CORPUS, "*.json"))):
@@ -498,6 +647,8 @@ def run(ck: Check):
         dnames.append("dex <no map entry 0x%04x>" % t)
     ck.compare("dex-missing-section", dnames, dreal, drv.ask(dreqs))
     ck.cover(dist={"missing_section_files": len(dnames), "missing_section_errors": sum(1 for r in dreal if r.startswith("err"))})
+    # extended model: static values, init values, annotations
+    x_streams(ck, drv, big)
     # item-level streams
     k = item_streams(ck, drv)
     ck.cover(dist={"item_stream_cases": k})
@@ -505,9 +656,16 @@ def run(ck: Check):
                     "layout (code items with or without tries); the theorem's domain is files whose sections are stored "
                     "back to back at the offsets their map entries give — everything else (truncated, overlapping item "
                     "types, duplicate map types) is covered by the correspondence and the oracle only")
+    ck.notes.append("extension: parse_encode_static_values is proved for files that EncodesX extended tables (base tables + "
+                    "encoded_array_item section) without annotation sections; annotation items / sets / directories are modelled "
+                    "(stream dexx, 0 mismatches required) but their file-level theorem is not proved yet")
+    ck.partial.append("file-level theorem for the annotation sections (annotation_item, annotation_set_item, annotation_set_ref_list, "
+                      "annotations_directory_item): modelled and tied by the correspondence dexx, not yet proved; debug_info_item is "
+                      "outside the model")
     ck.assumptions += [
         "mutf8.decode is an injective renaming of MUTF-8 byte strings that commutes with concatenation (C06); the model keeps raw bytes",
-        "header validation (C09), annotations, static values, debug info, hidden-api data are not in the model",
+        "header validation (C09), debug info, call sites / method handles, hidden-api data are not in the model; static values and "
+        "annotations are in the extended model (Model/DexFileX.lean, stream dexx), of which the base model is a proved refinement",
         "the regex helpers are called with re.escape(name)+r'\\Z' and modelled as name equality",
         "model and oracle describe androguard with fixes/C05-lookup-helpers.diff applied",
     ]
@@ -520,6 +678,24 @@ def replay(ck: Check, rp):
         print("nothing to replay in", rp.get("kind"))
         return 0
     data, b = M.build(model)
+    if c.get("extended"):
+        rl = real_line_x(data)
+        exp = M.expected_line(model, b) + X.expected_x(model, b, data)
+        print("origin:", c.get("origin"), " file bytes:", len(data), "(extended view)")
+        if str(c.get("origin", "")).startswith("patched"):
+            print("patched class defs are not rebuilt by replay; the unpatched file follows")
+        try:
+            ml = Driver("drv_C05").ask(["dexx " + hexs(data)])[0]
+            print("lean model == real:", ml == rl, " lean model == expected:", ml == exp)
+        except Exception as ex:  # noqa
+            print("driver unavailable:", ex)
+        if rl == exp:
+            print("real == expected")
+            return 0
+        e, o = first_diff(exp, rl)
+        print("expected:", e)
+        print("observed:", o)
+        return 1
     extra = []
     rl = real_line(data, extra)
     exp = M.expected_line(model, b)
